@@ -125,10 +125,13 @@ def decide(pid, tier, seed, keep=False, only_obligation=None):
             htime = max(h.get("timeout", 300) for _, h in hs)
             jobs = int(os.environ.get("FV_JOBS", "12"))
             run = kani.run_harnesses(crate_info["crate"], names, jobs=jobs, harness_timeout=htime, heavy=[h["full"] for _, h in hs if h.get("mem") == "high" and tier == "thorough"],   # the quick subsets are small enough (measured)
-                                     total_timeout=P.get("total_timeout", 5400) if tier == "quick" else 12 * 3600)
+                                     total_timeout=P.get("total_timeout", 5400) if tier == "quick" else 12 * 3600,
+                                     batch=100000 if tier == "quick" else None)      # quick: one invocation (one compilation); its memory is measured
             backends["kani"]["wall_s"] += run["wall_s"]
             backends["kani"]["cmd"] = run["cmd"]
             backends["kani"]["peak_rss_mb"] = run["peak_rss_kb"] // 1024
+            backends["kani"]["peak_driver_rss_mb"] = run.get("peak_driver_kb", 0) // 1024
+            backends["kani"]["batches"] = run.get("batches", 1)
             if run["killed"]:
                 notes.append("watchdog killed cbmc (RSS limit): %s" % run["killed"])
             if run["json"] is None:
